@@ -3,7 +3,7 @@
 unit=${1:-screen}; shift
 fn=$1; case "$fn" in --*) fn="";; *) [ -n "$fn" ] && shift;; esac
 mkdir -p /verif/build/dev
-python3 /verif/weave/weave.py /verif/contracts/$unit.spec /repo /verif/build/dev/$unit.rs || exit 2
+python3 /verif/weave/weave.py /verif/contracts/$unit.spec ${VERIF_REPO:-/repo} /verif/build/dev/$unit.rs || exit 2
 cd /verif/build/dev
 if [ -n "$fn" ]; then
   verus $unit.rs --multiple-errors 20 --verify-root --verify-function "$fn" "$@" 2>&1 | grep -v "^WARNING conda" | grep -v "recommendation not met" 
